@@ -571,8 +571,236 @@ func init() {
 		Run: func(c *Ctx) {
 			c.ruleFSMTransitions()
 			c.ruleNotifications()
+			c.ruleUnexpectedMessages()
 			c.ruleEstablishedOnlyRIB()
 			c.ruleASNReaders()
 		},
 	})
+}
+
+// sendsNotificationWith: the call (directly, or through a module helper up to depth 2) hands
+// fsm.sendNotification a NOTIFICATION built with exactly these code/subcode constants.
+func (c *Ctx) sendsNotificationWith(call *ssa.Call, code, sub int64, depth int) bool {
+	callee := call.Call.StaticCallee()
+	if callee == nil {
+		return false
+	}
+	isNotif := func(v ssa.Value) bool {
+		nc, ok := v.(*ssa.Call)
+		if !ok || nc.Call.StaticCallee() == nil || nc.Call.StaticCallee().Name() != "NewBGPNotificationMessage" {
+			return false
+		}
+		k0, ok0 := stripConv(nc.Call.Args[0]).(*ssa.Const)
+		k1, ok1 := stripConv(nc.Call.Args[1]).(*ssa.Const)
+		if !ok0 || !ok1 {
+			return false
+		}
+		a, _ := constInt(k0.Value)
+		s, _ := constInt(k1.Value)
+		return a == code && s == sub
+	}
+	if callee.Name() == "sendNotification" {
+		return isNotif(call.Call.Args[len(call.Call.Args)-1])
+	}
+	if depth >= 2 || !c.P.InModule(callee) || callee.Blocks == nil {
+		return false
+	}
+	for _, b := range callee.Blocks {
+		for _, in := range b.Instrs {
+			if c2, ok := in.(*ssa.Call); ok && c.sendsNotificationWith(c2, code, sub, depth+1) {
+				return true
+			}
+		}
+	}
+	return false
+}
+
+// ruleUnexpectedMessages: what the FSM does with a message it must not get in the current state.
+func (c *Ctx) ruleUnexpectedMessages() {
+	r := c.R
+	rule := "E6.unexpected-message"
+	r.Rule(rule, "RFC 4271 §8.2.2 / RFC 6608 / RFC 4486: (a) in OpenConfirm, evaluated for each message type, an OPEN, UPDATE or ROUTE-REFRESH cannot reach a return without a NOTIFICATION FSM-error/2 having been sent, while KEEPALIVE and NOTIFICATION send none; (b) the Established receive loop dispatches on every BGP message type and answers OPEN with FSM-error/3; (c) on both outcomes of every collision decision (isDominant) the losing connection is closed by a NOTIFICATION Cease/7 and never by a bare Close", 8)
+	pk := c.P.Pkg("pkg/packet/bgp").Types.Scope()
+	cv := func(n string) int64 {
+		if cobj, ok := pk.Lookup(n).(*types.Const); ok {
+			v, _ := constInt(cobj.Val())
+			return v
+		}
+		return -999
+	}
+	mt := enumMsgTypes(c)
+	fsmErr := cv("BGP_ERROR_FSM_ERROR")
+	// (a) OpenConfirm
+	if fn := c.P.Func("(*pkg/server.fsmHandler).openconfirm"); fn == nil {
+		r.Undec(rule, "openconfirm", "anchor", "-", "not found")
+	} else {
+		fk := ir.FuncKey(fn)
+		// the message-type value and the first test on it
+		var h ssa.Value
+		var start *ssa.BasicBlock
+		for _, b := range fn.Blocks {
+			iff, ok := b.Instrs[len(b.Instrs)-1].(*ssa.If)
+			if !ok {
+				continue
+			}
+			bo, ok := iff.Cond.(*ssa.BinOp)
+			if !ok {
+				continue
+			}
+			for _, side := range []ssa.Value{bo.X, bo.Y} {
+				if fieldLoadName(side) == "Type" && strings.HasSuffix(fieldPath(side), "Header.Type") {
+					if start == nil || b.Dominates(start) {
+						h, start = side, b
+					}
+				}
+			}
+		}
+		if start == nil {
+			r.Bad(rule, fk, "dispatch on message type", c.P.Pos(fn.Pos()), "OpenConfirm no longer looks at the type of a received message")
+		} else {
+			for _, name := range []string{"BGP_MSG_OPEN", "BGP_MSG_UPDATE", "BGP_MSG_ROUTE_REFRESH", "BGP_MSG_KEEPALIVE", "BGP_MSG_NOTIFICATION"} {
+				d := mt[name]
+				mustNotify := name == "BGP_MSG_OPEN" || name == "BGP_MSG_UPDATE" || name == "BGP_MSG_ROUTE_REFRESH"
+				// explore from start under h == d; stop at blocks that send the NOTIFICATION
+				silentReturn, notified := false, false
+				seen := map[*ssa.BasicBlock]bool{}
+				work := []*ssa.BasicBlock{start}
+				for len(work) > 0 {
+					b := work[0]
+					work = work[1:]
+					if seen[b] {
+						continue
+					}
+					seen[b] = true
+					sent := false
+					for _, in := range b.Instrs {
+						if call, ok := in.(*ssa.Call); ok && c.sendsNotificationWith(call, fsmErr, 2, 0) {
+							sent = true
+						}
+					}
+					if sent {
+						notified = true
+						continue
+					}
+					last := b.Instrs[len(b.Instrs)-1]
+					if _, ok := last.(*ssa.Return); ok {
+						silentReturn = true
+						continue
+					}
+					if iff, ok := last.(*ssa.If); ok {
+						if v, ok := decideIf(iff.Cond, h, d); ok {
+							if v {
+								work = append(work, b.Succs[0])
+							} else {
+								work = append(work, b.Succs[1])
+							}
+							continue
+						}
+					}
+					// do not leave the handling of this message: stay inside the region dominated by the dispatch
+					for _, s := range b.Succs {
+						if start.Dominates(s) && s != start {
+							work = append(work, s)
+						}
+					}
+				}
+				cons := "OpenConfirm receives " + strings.TrimPrefix(name, "BGP_MSG_")
+				switch {
+				case mustNotify && silentReturn:
+					r.Bad(rule, fk, cons, c.P.InstrPos(start.Instrs[len(start.Instrs)-1]), "the handler can return without having sent NOTIFICATION FSM-error/2 (Receive Unexpected Message in OpenConfirm State): the peer sees a bare TCP close")
+				case mustNotify && !notified:
+					r.Bad(rule, fk, cons, c.P.InstrPos(start.Instrs[len(start.Instrs)-1]), "no NOTIFICATION FSM-error/2 is sent for this message type")
+				case mustNotify:
+					r.Ok(rule, fk, cons, c.P.InstrPos(start.Instrs[len(start.Instrs)-1]), "every path to a return sends FSM-error/2")
+				case notified && !silentReturn:
+					r.Bad(rule, fk, cons, c.P.InstrPos(start.Instrs[len(start.Instrs)-1]), "an expected message is answered with an FSM-error NOTIFICATION")
+				default:
+					r.Ok(rule, fk, cons, c.P.InstrPos(start.Instrs[len(start.Instrs)-1]), "no FSM-error NOTIFICATION required")
+				}
+			}
+		}
+	}
+	// (b) Established dispatch
+	if fn := c.P.Func("(*pkg/server.fsmHandler).recvMessageloop"); fn == nil {
+		r.Undec(rule, "recvMessageloop", "anchor", "-", "not found")
+	} else {
+		fk := ir.FuncKey(fn)
+		info := c.infoFor(fn)
+		var best *switchInfo
+		for _, sw := range switchesOn(funcBody(fn), info, func(t types.Type) bool {
+			b, ok := t.Underlying().(*types.Basic)
+			return ok && b.Kind() == types.Uint8
+		}) {
+			if _, ok := sw.Cases["BGP_MSG_UPDATE"]; ok {
+				best = sw
+			}
+		}
+		if best == nil {
+			r.Bad(rule, fk, "dispatch on message type", c.P.Pos(fn.Pos()), "the Established receive loop has no switch on the message type")
+		} else {
+			for _, name := range []string{"BGP_MSG_OPEN", "BGP_MSG_UPDATE", "BGP_MSG_NOTIFICATION", "BGP_MSG_KEEPALIVE", "BGP_MSG_ROUTE_REFRESH"} {
+				cc := best.Cases[name]
+				cons := "Established receives " + strings.TrimPrefix(name, "BGP_MSG_")
+				switch {
+				case cc == nil && best.HasDefault:
+					r.Ok(rule, fk, cons, c.P.Pos(best.Stmt.Pos()), "handled by the default clause")
+				case cc == nil:
+					r.Bad(rule, fk, cons, c.P.Pos(best.Stmt.Pos()), "no case for this message type: the message is passed on as if it were expected")
+				case name == "BGP_MSG_OPEN" && !(mentionsConst(cc, info, "BGP_ERROR_FSM_ERROR") && mentionsConst(cc, info, "BGP_ERROR_SUB_RECEIVE_UNEXPECTED_MESSAGE_IN_ESTABLISHED_STATE")):
+					r.Bad(rule, fk, cons, c.P.Pos(cc.Pos()), "an OPEN in Established is not answered with NOTIFICATION FSM-error/3")
+				default:
+					r.Ok(rule, fk, cons, c.P.Pos(cc.Pos()), "has a case")
+				}
+			}
+		}
+	}
+	// (c) collision
+	if fn := c.P.Func("(*pkg/server.fsmHandler).opensent"); fn == nil {
+		r.Undec(rule, "opensent", "anchor", "-", "not found")
+	} else {
+		fk := ir.FuncKey(fn)
+		cease, coll := cv("BGP_ERROR_CEASE"), cv("BGP_ERROR_SUB_CONNECTION_COLLISION_RESOLUTION")
+		n := 0
+		for _, dc := range staticCallsOf(fn, false, "isDominant") {
+			for _, ref := range *dc.Referrers() {
+				iff, ok := ref.(*ssa.If)
+				if !ok {
+					continue
+				}
+				for edge := 0; edge < 2; edge++ {
+					n++
+					sends, bare := false, ""
+					for _, b := range fn.Blocks {
+						if !edgeDominates(iff.Block(), edge, b) {
+							continue
+						}
+						for _, in := range b.Instrs {
+							call, ok := in.(*ssa.Call)
+							if !ok {
+								continue
+							}
+							if c.sendsNotificationWith(call, cease, coll, 0) {
+								sends = true
+							}
+							if call.Call.IsInvoke() && call.Call.Method.Name() == "Close" {
+								bare = c.P.InstrPos(call)
+							}
+						}
+					}
+					cons := fmt.Sprintf("collision decision #%d, %s side wins", (n+1)/2, map[int]string{0: "active", 1: "passive"}[edge])
+					switch {
+					case bare != "":
+						r.Bad(rule, fk, cons, bare, "the connection that loses the collision is closed with a bare Close(): RFC 4271 §6.8 prescribes a NOTIFICATION Cease (RFC 4486 subcode 7)")
+					case !sends:
+						r.Bad(rule, fk, cons, c.P.InstrPos(iff), "the losing connection is not closed with NOTIFICATION Cease/7")
+					default:
+						r.Ok(rule, fk, cons, c.P.InstrPos(iff), "loser closed by NOTIFICATION Cease/7")
+					}
+				}
+			}
+		}
+		if n == 0 {
+			r.Bad(rule, fk, "collision decision", c.P.Pos(fn.Pos()), "no collision decision found")
+		}
+	}
 }
